@@ -28,12 +28,13 @@ def anchor_files(prop: str):
 def run_rules(mod, ctx, prop):
     """the property's own rules, then the rules common to all properties (state shared between calls) on its anchor files"""
     out = mod.run(ctx)
-    from rules.common import check_declarations, check_effects, check_public_exports, check_shared_state, check_truthiness, check_validation_bypass
+    from rules.common import check_call_shapes, check_declarations, check_effects, check_public_exports, check_shared_state, check_truthiness, check_validation_bypass
     check_shared_state(ctx, anchor_files(prop))
     check_declarations(ctx, anchor_files(prop))
     check_effects(ctx, anchor_files(prop))
     check_truthiness(ctx, anchor_files(prop))
     check_validation_bypass(ctx, anchor_files(prop))
+    check_call_shapes(ctx, anchor_files(prop))
     check_public_exports(ctx, mod, anchor_files(prop))
     return out
 
